@@ -683,3 +683,30 @@ def em_ids(em):
 
 def operation_bodies_calling(F, owner_name, method):
     return [f for f in operation_bodies(F, owner_name) if any((c.method or "") == method and not f.is_cleanup(c.bb) for c in f.calls())]
+
+
+
+def clause_drain_own_data(R, F):
+    """Of everything handed to the execution of a drained (parked) transaction, only the block coordinates and the index come
+    from the call in progress; every other argument (transaction fields, inscription id, byte length, txid) is the parked
+    transaction's own stored data.  Otherwise receipts / index rows / gas / context of the drained transaction are those of the
+    transaction that triggered the drain."""
+    dl = drain_loop(F)
+    R.ob(dl is not None, "ANCHOR", "(engine)", "ANCHOR|drain-loop", "the pending-pool drain loop was not found")
+    if not dl:
+        return
+    em = engine_methods(F)
+    fn = em["add_raw_tx_to_block"]
+    c = dl[3][0]
+    pn = em["add_tx_to_block"].j.get("param_names") or []
+    per_block = {"self", "timestamp", "block_number", "block_hash", "tx_idx"}
+    n = 0
+    for i, nm in enumerate(pn):
+        if nm in per_block or i >= len(c.args):
+            continue
+        n += 1
+        a = origin(fn, c.args[i])
+        R.ob(mentions(a, "get_pending_tx") or mentions(a, "pending_tx"), "WIRE", c.where(), "WIRE|drain|own:%s" % nm,
+             "a drained transaction is executed with %s = `%s`, which is not the value stored with the parked transaction (it belongs to "
+             "the transaction that triggered the drain)" % (nm, show(a)[:70]), sample={"rule": "WIRE", "site": "drain", "argument": nm, "origin": show(a)[:60]})
+    R.floor("drain_own_arguments", n, 4)
